@@ -38,7 +38,36 @@ def find_thread_entries(F, crate):
     return out
 
 
-def shutdown_summary(F, body):
+def _stream_drops_only(F, body):
+    """blocks of `body` that drop the stream (Drop terminator on the stream field / mem::drop of it)"""
+    out = []
+    for i in range(body.nblocks):
+        if body.is_cleanup(i):
+            continue
+        t = body.term(i)
+        if t["k"] == "drop":
+            fs = place_fields(t["place"])
+            if fs and fs[-1] == "stream" or _is_stream_place(body, t["place"]):
+                out.append(i)
+        elif t["k"] == "call" and (t.get("callee") or {}).get("def") == "core::mem::drop" and t["args"]:
+            p = op_place(t["args"][0])
+            work, seen = ([p["l"]] if p is not None else []), set()
+            while work:
+                l = work.pop()
+                if l in seen:
+                    continue
+                seen.add(l)
+                for kind, bb, idx, node in body.defs().get(l, []):
+                    if kind == "assign" and node["k"] == "assign" and node["rv"]["k"] == "use":
+                        q = op_place(node["rv"]["op"])
+                        if q is not None and _is_stream_place(body, q):
+                            out.append(i)
+                        elif q is not None and not q.get("p"):
+                            work.append(q["l"])
+    return out
+
+
+def shutdown_summary(F, body, _depth=0):
     """does `body` perform drain < flush < drop(stream) on every normal path to Return?  returns (ok, detail)"""
     dom = body.dominators()
     drains = [c for c in sites_reaching(F, body, is_pop) ]
@@ -72,6 +101,14 @@ def shutdown_summary(F, body):
                                     drops.append(i)
                                 elif q is not None and not q.get("p"):
                                     work.append(q["l"])
+    # ... or a call of a private helper that ends the stream's life on every one of its paths (e.g. `self.close()`)
+    if _depth < 1:
+        for c in body.calls():
+            for sb in local_callee_bodies(F, c):
+                if sb.crate == body.crate and sb is not body:
+                    dd = _stream_drops_only(F, sb)
+                    if dd and sb.must_pass(dd):
+                        drops.append(c.bb)
     if not drains:
         return False, "no drain (call reaching ArrayQueue::pop)"
     if not flushes:
